@@ -36,11 +36,33 @@ TRUSTED_BASE = [
     "(done by the driver from the implementation's own __bases__)",
 ]
 ASSUMPTIONS = [
-    "registry bases come earlier in creation order; invalidating registries have invalidating bases",
-    "interfaces used as *provided* (and their ancestors) are not re-based (outside the property: upstream TODO)",
+    "theorems: histories of ONE registry flavour (all invalidating or all verifying), registries addressed "
+    "after their creation, bases earlier in creation order (acyclic registry graph), no rebuild() "
+    "(C05_rebuild_outside_refuted: rebuild() forgets the sub-registries, in the code too); the tie also runs "
+    "verifying-over-invalidating chains, which the theorems do not cover",
+    "generated histories never re-base an interface used as *provided* or one of its ancestors (outside the "
+    "property; the theorems do not need this: extendors are stored state, so the caches stay transparent, "
+    "only freshness of the answer is lost upstream)",
     "the specification graph stays acyclic; (__name__, __module__) keys are unique within a world",
-    "values are called only by the entry points that call factories; they do not touch the registry",
+    "registered values do not touch registries or declarations when called",
 ]
+TECHNIQUE = ("Coq proof (invariant CacheValid over the shared registry model extended with a dynamic specification "
+             "graph, on top of C06's chain invariants) + vm_compute correspondence with both implementations + "
+             "direct differential test of the property on the code (every probed lookup re-run on a fresh world "
+             "with all earlier lookups erased)")
+LEVEL_TEXT = ("Machine-checked theorems (Properties/C05.v, closed under the global context): for every well-formed "
+              "history of either flavour over any specification graph, with registrations, subscriptions, registry "
+              "__bases__ and specification __bases__ changes interleaved with every lookup entry point, each "
+              "lookup-family answer equals (a) its answer in the history with all earlier queries erased, (b) its "
+              "answer after emptying every cache, (c) the entry point run on empty caches over the C3 chain of the "
+              "current registry graph.  The model is compared with the C and Python implementations on targeted "
+              "(lookup, mutation, lookup) histories on every run, and the implementation itself is compared with "
+              "its own erased-history replays (the Spec oracle, no model involved).")
+LEVEL_NOTE = ("Trusted: Coq kernel/vm_compute; the shared transcriptions Model/Adapter, Lookup, RegSys and "
+              "Model/CacheSys (validated by the correspondence); fresh_sro as the orders lookups walk (C02); the "
+              "driver's translation of declaration calls into the __bases__ assignments it observes.  Not covered by "
+              "the theorems: mixed-flavour chains (tested only), rebuild() (refuted, real defect outside the "
+              "property's mutation list), weak-reference death of subscribed specifications.")
 
 MUT_KINDS = ("register", "unregister", "subscribe", "unsubscribe", "setregbases", "setspecbases",
              "classimplements", "directlyprovides", "alsoprovides", "nolongerprovides")
